@@ -146,6 +146,11 @@ def EvOk (ev : Frame N → Task N → State N → Res N) : Prop :=
 
 macro "ok_auto" : tactic => `(tactic| repeat (any_goals (first | ok_step | (apply ‹EvOk _› <;> ok_close) | ok_close)))
 
+theorem ok_callWith (ev : Frame N → Task N → State N → Res N) (ih : EvOk ev) (fr : Frame N) (args : List (Expr N))
+    (self vf : Value N) (st : State N) (hfr : fr.depth ≤ depthLimit) (hst : st.maxDepth ≤ depthLimit) :
+    Ok (callWith ev fr args self vf st) := by
+  unfold callWith; ok_auto
+
 section steps
 variable (ev : Frame N → Task N → State N → Res N) (ih : EvOk ev) (fr : Frame N) (st : State N)
   (hfr : fr.depth ≤ depthLimit) (hst : st.maxDepth ≤ depthLimit)
@@ -168,7 +173,8 @@ theorem ok_stepIter (kind : IterKind) (cb : Value N) (items acc : List (Value N)
 theorem ok_stepRef (e : Expr N) (i : Bool) : Ok (stepRef ev fr e i st) := by
   unfold stepRef; ok_auto
 theorem ok_stepNode (e : Expr N) : Ok (stepNode ev fr e st) := by
-  unfold stepNode; ok_auto
+  unfold stepNode
+  repeat (any_goals (first | ok_step | (apply ‹EvOk _› <;> ok_close) | (apply ok_callWith _ ‹EvOk _› <;> ok_close) | ok_close))
 
 end steps
 
